@@ -859,3 +859,54 @@ func SlowBackendOverflow(name string, n, size, bound int) *world.Scenario {
 	}
 	return sc
 }
+
+// SlowClientOverflow: a slow client has MORE than 64 KiB of replies parked (ring part full, rest in the overflow list);
+// a writable event drains part of it; then FURTHER replies for that client are produced (forwarded and local ones) while
+// list content is still waiting. Byte-exact stream at the end.
+func SlowClientOverflow(name string, size, bound int) *world.Scenario {
+	sc := &world.Scenario{Nodes: T3m(), Bound: bound, Family: "slow-client-overflow", Horizon: 3000, WriteOracle: true,
+		ReadCap: 65536, WriteCap: 65536, MaxLen: 8 << 20, NoVariant: true}
+	replyOf := map[string][]byte{}
+	reqs := []Req{PingReq()}
+	var first []byte
+	for j := 0; j < 3; j++ {
+		k := keysA[j]
+		r := GetReq(k)
+		r.Expect = world.Bulk(patterned("A"+k, size+j))
+		replyOf[k] = r.Expect
+		reqs = append(reqs, r)
+		first = append(first, r.Bytes...)
+	}
+	later := []Req{GetReq(keysB[0]), PingReq(), GetReq(keysA[5])}
+	later[0].Expect = world.Bulk(patterned("late", 700))
+	replyOf[keysB[0]] = later[0].Expect
+	reqs = append(reqs, later...)
+	cs := ClientOf(reqs, false)
+	need := size + size/2
+	drained := func(w *world.World) bool { return w.Clients[0].Sock != nil && w.Clients[0].Sock.TxTotal >= need }
+	cs.Chunks = []world.Chunk{{Data: reqs[0].Bytes}, {Data: first, WaitReplies: 1}}
+	for _, r := range later {
+		cs.Chunks = append(cs.Chunks, world.Chunk{Data: r.Bytes, Gate: drained})
+	}
+	cs.Slow = true
+	sc.Clients = []world.ClientSpec{cs}
+	sc.Reply = func(w *world.World, bc *world.BConn, args [][]byte) ([]byte, int) {
+		if len(args) > 1 {
+			if r, ok := replyOf[string(args[1])]; ok {
+				return r, 0
+			}
+		}
+		return nil, 0
+	}
+	sc.Name = fmt.Sprintf("%s/slow-client-overflow/3x%dB-then-more/d%d", name, size, bound)
+	sc.Check = func(w *world.World) []world.Violation {
+		vs := CheckStreams(w, StreamOpts{})
+		for i := range vs {
+			if len(vs[i].Msg) > 500 {
+				vs[i].Msg = vs[i].Msg[:500] + "..."
+			}
+		}
+		return vs
+	}
+	return sc
+}
